@@ -33,6 +33,15 @@ NAMED_TARGETS = {
 
 def materialise(node, shared, memo):
     if isinstance(node, dict):
+        if set(node.keys()) == {"$nd"}:
+            # a numpy array where a YAML author would have a list (a grid from np.geomspace without .tolist())
+            import numpy as np
+
+            return np.array(node["$nd"], dtype=float)
+        if set(node.keys()) == {"$npf"}:
+            import numpy as np
+
+            return np.float64(node["$npf"])  # kinematics built with np.linspace / np.geomspace
         if set(node.keys()) == {"$ref"}:
             name = node["$ref"]
             if name not in memo:
@@ -55,6 +64,9 @@ def fingerprint(obj, ids=None, path="$"):
     if isinstance(obj, list):
         ids[path] = id(obj)
         return ("list", tuple(fingerprint(v, ids, f"{path}[{i}]")[0] for i, v in enumerate(obj))), ids
+    if type(obj).__name__ == "ndarray":
+        ids[path] = id(obj)
+        return ("ndarray", (str(obj.dtype), tuple(obj.shape), obj.tobytes().hex())), ids
     return (type(obj).__name__, canon._num(obj) if not isinstance(obj, str) else obj), ids
 
 
@@ -189,6 +201,18 @@ def gen_cards(rng):
     # spellings a YAML author may use
     if rng.random() < 0.15:
         shared["G0"][-1] = 1  # integer spelling of the last node
+    # cards built in Python rather than read from YAML: the grid as a numpy array, kinematic values as numpy
+    # scalars (np.geomspace / np.linspace without .tolist()) - mutable or foreign-typed leaves that a
+    # "dicts and lists only" copy hands through by reference (adversarial seeded change
+    # c20-adversarial-detach-keeps-leaves-by-reference)
+    if rng.random() < 0.08:
+        shared["G0"] = {"$nd": [float(v) for v in shared["G0"]]}
+    if rng.random() < 0.08:
+        for name, node in shared.items():
+            if name.startswith(("P", "XP")) and isinstance(node, dict):
+                for kk in list(node):
+                    if isinstance(node[kk], float):
+                        node[kk] = {"$npf": node[kk]}
     if rng.random() < 0.08:
         t = cardsd[f"T{rng.randrange(nth)}"]
         t.setdefault("alphaqed", 0.007496)
@@ -378,15 +402,19 @@ def _apply_edit(root_obj, edit, shared_objs):
     last = path[-1]
     try:
         if act == "scale":
-            if not isinstance(tgt[last], (int, float)) or isinstance(tgt[last], bool):
+            if isinstance(tgt[last], bool) or not (isinstance(tgt[last], (int, float))
+                                                   or type(tgt[last]).__name__ in ("float64", "int64")):
                 return False
             tgt[last] = tgt[last] * val
             return True
         if act == "set":
-            if isinstance(tgt, list) and not (isinstance(last, int) and 0 <= last < len(tgt)):
+            if (isinstance(tgt, list) or type(tgt).__name__ == "ndarray") \
+                    and not (isinstance(last, int) and 0 <= last < len(tgt)):
                 return False
             tgt[last] = val
         elif act == "delete":
+            if type(tgt).__name__ == "ndarray":
+                return False
             if isinstance(tgt, list) and not (isinstance(last, int) and 0 <= last < len(tgt)):
                 return False
             if isinstance(tgt, dict) and last not in tgt:
